@@ -347,8 +347,8 @@ Proof.
         (destruct a as [|p]; try reflexivity; repeat (destruct p as [p|p|]; try reflexivity); exact Ei).
   - destruct (att_output c st i n) as [[st' rs]|]; cbn [snd] in *; [|contradiction].
     cbn [core_eff]. destruct rs as [|a [|b [|d t]]]; try (intros H; left; split; [exact H|reflexivity]).
-    destruct (Nat.eqb i cid && (a =? 29) && _) eqn:Cd; cbn [snd]; [|intros H; left; split; [exact H|reflexivity]].
-    intros _. right. apply andb_true_iff in Cd. destruct Cd as [Cd _]. apply andb_true_iff in Cd. destruct Cd as [C1 C2].
+    destruct (Nat.eqb i cid && (a =? 29)) eqn:Cd; cbn [snd]; [|intros H; left; split; [exact H|reflexivity]].
+    intros _. right. apply andb_true_iff in Cd. destruct Cd as [C1 C2].
     apply Nat.eqb_eq in C1. apply N.eqb_eq in C2. subst. eauto.
   - intros H. left. split; [|reflexivity]. destruct (get_conn st i); cbn [snd core_eff] in H; destruct (Nat.eqb i cid); exact H.
   - cbn [snd core_eff]. destruct (Nat.eqb i cid); cbn [snd]; [discriminate|]. intros H. left. auto.
